@@ -16,6 +16,7 @@ from sa.cfg import CFG, walk_shallow
 from sa.common import applicable_cells, fn_construct, terminal_statuses, trace_sig
 from sa.model import AnalysisError, load_program
 from sa.protocol import (
+    ABSENT,
     ProtocolModel,
     context_method_traces,
     is_suspend,
@@ -127,6 +128,18 @@ def build() -> Check:
               + (trace_sig(bad2[0]) if bad2 else ""), cell=st)
         if traces:
             ck.sample({"cell": [name, st], "trace": trace_sig(traces[0])})
+    if ck.tier == "thorough":
+        from sa.common import APPLICABLE
+        from sa.compose import explore
+
+        for name, ci in pm.executors.items():
+            ot = pm.executor_optype(ci)
+            all_cells = {s_: pm.run_cell(ci, s_, faults=True) for s_ in [ABSENT, *APPLICABLE[ot]]}
+            seen, findings, n_steps = explore(ot, all_cells)
+            re_ex = [f for f in findings if f[0] == "reexecution"]
+            c = f"{ci.module.relpath.split('aws_durable_execution_sdk_python/')[-1]}:{ci.name}"
+            ck.ob("R6.no-reexecution-across-invocations", c, not re_ex,
+                  (re_ex[0][1] + " | witness: " + " / ".join(re_ex[0][2])[-400:]) if re_ex else f"{len(seen)} history states, {n_steps} transitions")
     ck.floor("terminal_cells", n_cells, 13)
     ck.floor("traces", n_traces, 10)
 
@@ -206,8 +219,10 @@ def build() -> Check:
             and c.args and isinstance(c.args[0], ast.Attribute) and c.args[0].attr == "operations"
             for c in ast.walk(lp)
         )
-        ok_loop = passes and reassigned and collected
-        detail = f"marker passed={passes} reassigned-from-response={reassigned} page-collected={collected}"
+        early = [n for st in lp.body for n in ast.walk(st) if isinstance(n, (ast.Break, ast.Return))]
+        ok_loop = passes and reassigned and collected and not early
+        detail = f"marker passed={passes} reassigned-from-response={reassigned} page-collected={collected} early-exit-statements={len(early)}" \
+            + (" (the loop must run until the marker is exhausted: an empty page may still carry a marker)" if early else "")
     ck.ob("R4.pagination-loop", fn_construct(fpo), ok_loop, detail)
     # the merged map is keyed by the operation's own id and fed from the collected pages + the initial page
     upd = [c for c in ast.walk(fpo.node) if isinstance(c, ast.Call) and isinstance(c.func, ast.Attribute)
